@@ -68,7 +68,7 @@ def gen_overflow(rng, style="out"):
     S.append(("connect",)); S.append(("wait", 0)); S.append(("connect",)); S.append(("wait", 1))
     if style == "out":
         S.append(("raw", ["STALL c0 1"]))
-        n = rng.choice([760, 800, 900])
+        n = rng.choice([1500, 1560, 1650])          # a `help` reply is ~720 bytes: 1 MiB is passed after ~1460 of them
         for _ in range(4):
             S.append(("send", 0, b"help\r\n" * (n // 4))); S.append(("sleep", 1000))
         S.append(("send", 1, b"nodes\r\n")); S.append(("wait", 1))
@@ -85,6 +85,24 @@ def gen_overflow(rng, style="out"):
         S.append(("send", 0, b"\nhelp\r\n")); S.append(("sleep", 300000))
     sc.requests = []
     return sc
+
+
+def halfclose_stage(ctx, V, exe, n):
+    """`exactly one terminal reply - never none`, for a client that sends its request and half-closes at once (`echo status | nc`): the
+    command is in progress when the daemon sees the end-of-file; the terminal reply must be written before the daemon closes the client"""
+    import random, C06
+    scs = []
+    for i in range(n):
+        rng = random.Random(ctx.seed * 15485863 + i)
+        cfg = pmgen.gen_variant_config(rng, ndev=rng.choice([1, 2]))
+        for d in cfg.devs: d.timeout = 3.0
+        nodes = cfg.all_nodes()
+        req = rng.choice([b"status", b"status " + rng.choice(nodes).encode(), b"on " + rng.choice(nodes).encode(), b"off " + rng.choice(nodes).encode()]) + b"\r\n"
+        S = [("connect",), ("wait", 0), ("send", 0, req), ("raw", ["EOF c0"]), ("sleep", 200000), ("sleep", 4000000)]
+        scs.append(pmcheck.Scenario(cfg, S, dict(style="c04-halfclose", ncli=1)))
+    pmcheck.MONITORS["c06halfclose"] = C06.mon_c06_halfclose
+    pmcheck.run_batch(ctx, V, exe, scs, ["alive", "wedge", "c06halfclose"], "c04hc")
+    V.count("half-close-histories", len(scs))
 
 
 def bounded_time_stage(ctx, V):
@@ -246,6 +264,7 @@ def run(ctx, V):
     exe = pmsim.build(ctx)
     rsim(ctx, V, exe, int(os.environ.get('C04_N', 0)) or 300 if ctx.tier == "quick" else 6000, styles=("mixed", "faults", "healthy"), prefix="c04")
     deadline_stage(ctx, V, exe, 40 if ctx.tier == "quick" else 1200)
+    halfclose_stage(ctx, V, exe, 24 if ctx.tier == "quick" else 600)
     # the 1 MiB client buffers (overwrite of the oldest bytes): replayed through the model like every other run
     if ctx.tier != "quick":       # ~3 minutes of model time per history (a million-element list per pass): thorough tier only
         os.environ.setdefault("PMREPLAY_TIMEOUT", "2400"); pmreplay.MODEL_TIMEOUT = int(os.environ["PMREPLAY_TIMEOUT"])
